@@ -392,9 +392,56 @@ func Concat(hi, lo *Term) *Term {
 }
 
 // arrays
-func Select(arr, idx *Term, w int) *Term { return app("select", w, arr, idx) }
+
+// baseOff splits t into (base rendering, constant offset) for terms of the shape x or (bvadd x c).
+func baseOff(t *Term) (string, *big.Int) {
+	if t.IsConst() {
+		return "", t.C
+	}
+	if t.Op == "bvadd" && len(t.Args) == 2 && t.Args[1].IsConst() {
+		return t.Args[0].String(), t.Args[1].C
+	}
+	return t.String(), big.NewInt(0)
+}
+
+// distinctIdx reports whether two index terms are provably different (syntactically: same base, different offset).
+func distinctIdx(a, b *Term) bool {
+	if a.W != b.W || a.W <= 0 {
+		return false
+	}
+	ba, oa := baseOff(a)
+	bb, ob := baseOff(b)
+	return ba == bb && oa.Cmp(ob) != 0
+}
+
+// skipStores applies read-over-write for syntactically equal / provably distinct indices.
+func skipStores(arr, idx *Term) (*Term, *Term) {
+	for arr.Op == "store" {
+		if arr.Args[1].String() == idx.String() {
+			return nil, arr.Args[2]
+		}
+		if distinctIdx(arr.Args[1], idx) {
+			arr = arr.Args[0]
+			continue
+		}
+		break
+	}
+	return arr, nil
+}
+
+func Select(arr, idx *Term, w int) *Term {
+	a, v := skipStores(arr, idx)
+	if v != nil {
+		return v
+	}
+	return app("select", w, a, idx)
+}
 func SelectSort(arr, idx *Term, sort string) *Term {
-	return appSort("select", sort, arr, idx)
+	a, v := skipStores(arr, idx)
+	if v != nil {
+		return v
+	}
+	return appSort("select", sort, a, idx)
 }
 func Store(arr, idx, v *Term) *Term { return appSort("store", arr.Sort, arr, idx, v) }
 
